@@ -99,7 +99,10 @@ def make_cfg(*, init: str = "Init", next: str = "Next", spec: Optional[str] = No
     if constants:
         lines.append("CONSTANTS")
         for k, v in constants.items():
-            lines.append(f"  {k} = {_fmt_const(v)}")
+            if isinstance(v, str) and v.startswith("<- "):
+                lines.append(f"  {k} {v}")          # substitution by a definition of the module
+            else:
+                lines.append(f"  {k} = {_fmt_const(v)}")
     for i in invariants:
         lines.append(f"INVARIANT {i}")
     for p in properties:
